@@ -86,7 +86,8 @@ def build_check(d, cmps, area=False):
             lines.append("@TestType Area interpolation %s using %s;" % (c["interp"], tcol))
             lines.append("@Precision %s;" % c["prec"])
         else:
-            lines.append("@TestType %s;" % c["type"])
+            if not (c.get("reuse") and i > 0 and cmps[i - 1]["type"] == c["type"]):
+                lines.append("@TestType %s;" % c["type"])  # otherwise: declared under the previous @TestType
             if c.get("prec2") is not None:
                 lines.append("@Precision %s %s;" % (c["prec"], c["prec2"]))
             else:
@@ -176,10 +177,15 @@ def check_pointwise(case):
     if rc < 0 or rc > 1 or any(v is None for v in verdicts):
         return Result(False, "C51.pointwise.no_verdict",
                       "tfel-check gave no verdict (exit %s) for\n%s\n%s" % (rc, txt, out[-1500:]))
+    sticky = False
     for i, (c, v) in enumerate(zip(cmps, verdicts)):
         k = KEYNAME[c["type"]]
         an = analyse_pointwise(c)
         classes.append("type." + k)
+        shared = bool(c.get("reuse") and i > 0 and cmps[i - 1]["type"] == c["type"])
+        sticky = shared and (sticky or not verdicts[i - 1])  # an earlier comparison under the same @TestType failed
+        if shared:
+            classes.append("shared_testtype" + (".after_failure" if sticky else ""))
         where = "comparison %d (%s, prec %s %s) of\n%s" % (i + 1, c["type"], c["prec"], c.get("prec2"), txt)
         if an["nonfinite"]:
             classes.append("nonfinite")
@@ -213,6 +219,8 @@ def check_pointwise(case):
                 key = "C51.%s.identical_failed" % k
                 if c["type"] == "Mixed" and an["negative"]:
                     key = "C51.mixed.identical_negative_reference_failed"
+                elif sticky:
+                    key = "C51.shared_testtype.failed_after_failure"
                 fails.append((key, "FAILED although %s; %s" % (
                     "the file is compared with itself" if c.get("self") else "both columns are identical", where)))
             continue
@@ -221,7 +229,7 @@ def check_pointwise(case):
             continue
         classes.append("within")
         if c["type"] == "Absolute" and not v:
-            fails.append(("C51.absolute.within_failed",
+            fails.append(("C51.shared_testtype.failed_after_failure" if sticky else "C51.absolute.within_failed",
                           "FAILED although every |a-b| <= prec: a=%s b=%s; %s" % (c["a"], c["b"], where)))
     anyfail = any(not v for v in verdicts)
     if (rc != 0) != anyfail or (endv == "SUCCESS") == anyfail:
@@ -388,8 +396,8 @@ def strategies():
             sgn = draw(st.sampled_from([-1., 1.]))
             k = draw(st.sampled_from([-2, -1, 1, 2]))
             x, y = make_row(typ, prec, prec2 or 0., cls, b, theta, sgn, k)
-            if math.isfinite(x) and abs(x) > 1e300:
-                x = b
+            if math.isfinite(x) and (abs(x) > 1e300 or (x != 0 and abs(x) < 1e-300)):
+                x = b  # overflow / subnormal spellings are rejected by std::stod: outside the input domain
             rows.append((x, y))
         t = [fmt(float(i)) for i in range(n)]
         c = {"type": typ, "prec": fmt(prec), "prec2": None if prec2 is None else fmt(prec2),
@@ -403,7 +411,18 @@ def strategies():
             c["b"] = (c["b"] * (m // n + 1))[:m]
         return c
 
-    pointwise = st.lists(comparison(), min_size=1, max_size=4).map(lambda l: {"cmps": l})
+    def finish(args):
+        l, same, reuse = args
+        for i, c in enumerate(l):
+            if same:  # several comparisons of one type (the data keep their classes only approximately: the oracle
+                c["type"] = l[0]["type"]  # is computed from the data)
+                if c["type"] in ("RelativeAndAbsolute", "Mixed") and c["prec2"] is None:
+                    c["prec2"] = "0"
+            c["reuse"] = bool(reuse[i % len(reuse)])
+        return {"cmps": l}
+
+    pointwise = st.tuples(st.lists(comparison(), min_size=1, max_size=4), st.sampled_from([False, False, True]),
+                          st.lists(st.sampled_from([False, True, True]), min_size=4, max_size=4)).map(finish)
 
     @st.composite
     def interp(draw, area=False):
